@@ -260,7 +260,11 @@ func (f *File) ReadAt(p []byte, off int64) (int, error) {
 		return f.real.ReadAt(p, off)
 	}
 	pt("io:read")
-	return f.h.ReadAt(p, off)
+	n, err := f.h.ReadAt(p, off)
+	// the caller is about to use what was read into p: a second point lets another thread run between the
+	// completion of the read and that use (a buffer shared between readers shows only there)
+	pt("io:read done")
+	return n, err
 }
 
 func (f *File) WriteAt(p []byte, off int64) (int, error) {
